@@ -636,6 +636,10 @@ def run(ctx: Ctx) -> Result:
     lines, expect, model_cases = [], [], []
     if ctx.replay is not None:
         c = ctx.replay['replay']
+        if c.get('history_race'):
+            from harness import history_race
+            history_race.run(res, only=c)
+            return res
         if 'specs' in c:
             try:
                 if 'urn' in c:
@@ -670,6 +674,9 @@ def run(ctx: Ctx) -> Result:
     spaced_identity(res)
     boundary_notes(res)
     compare_with_model(ctx, res, lines, expect, len(model_cases))
+    # the record being written out is the live object other threads read (and write out themselves) at the same time
+    from harness import history_race
+    history_race.run(res)
     res.exhaustive = True
     return res
 
